@@ -27,6 +27,22 @@ Definition lost_wakeup (c : ecase) : bool :=
 
 (* (the former known-finding domain "some count_down with n <> 1" is gone: the defect was repaired in /repo) *)
 
+(* the other half of the property, on the implementation's own output: a wait(v) that returned did so on word = v.
+   The k-th logged result of a thread belongs to its k-th logging operation (wait, waitFor, try_wait, completed). *)
+Definition logs (o : op) : bool := match o with OWait _ | OWaitFor _ _ | OTryWait | OCompleted => true | _ => false end.
+Fixpoint early_in (ops : list op) (rs : list (Z * Z)) : bool :=
+  match ops, rs with
+  | o :: ops', (tag, x) :: rs' =>
+      (match o with OWait v => (tag =? r_wait) && negb (x =? v) | _ => false end) || early_in ops' rs'
+  | _, _ => false
+  end.
+Fixpoint early_any (progs : list (list op)) (res : list (list (Z * Z))) : bool :=
+  match progs, res with
+  | p :: ps, r :: rs => early_in (filter logs p) r || early_any ps rs
+  | _, _ => false
+  end.
+Definition early_return (c : ecase) : bool := early_any (e_progs c) (i_results c).
+
 Definition agrees (c : ecase) : bool :=
   let '(s, tr, st) := run_event (e_fuel c) (e_w0 c) (e_tmo c) (e_progs c) (e_sched c) in
   list_eqb zpair_eqb tr (i_trace c) && (status_code st =? i_status c) && (word s =? i_word c) &&
@@ -34,5 +50,5 @@ Definition agrees (c : ecase) : bool :=
 
 (* 0 agree & property holds; 1 differ, property holds; 2 property fails *)
 Definition judge_event (c : ecase) : Z :=
-  if lost_wakeup c then 2
+  if lost_wakeup c || early_return c then 2
   else if agrees c then 0 else 1.
